@@ -308,7 +308,7 @@ def k3_rename(ctx):
     variants = rename_variants(ctx)
     defs = [v['defn'] for v in variants] + rename_bases()
     exp = ctx.stage('expander', lambda: stages.expander_build(ctx.dir))
-    skels = stages.expand(exp['bins'][False], [smgen.dsl_defn(d) for d in defs])
+    skels = stages.expand(exp['bins'][False], [smgen.dsl_defn(d, vary=True) for d in defs])
     live = [i for i, s in enumerate(skels) if s.get('ok') and 'items' in s]
     macro_rejected = [i for i in range(len(defs)) if i not in live]
     crate = os.path.join(ctx.dir, 'k3r')
